@@ -246,6 +246,7 @@ def execute(scenario, prof, seed, trace=None, then_generate=False, props=(), deb
             oracles.finish(w, prof, props)
         finally:
             kernel.W = None
+            w.shell.close_all()
             if os.getcwd() != _CWD0:
                 os.chdir(_CWD0)
     finally:
